@@ -21,6 +21,31 @@ var Versions = []map[string]interface{}{
 	{"t": "x y", "u": "z"},
 }
 
+// body is the struct form of a version: bleve walks map documents in Go's random map order, which
+// changes the order of field-level work (and, under the scheduler, of synchronisation points) from
+// run to run; struct fields are walked in declaration order.
+type body struct {
+	T *string  `json:"t,omitempty"`
+	N *float64 `json:"n,omitempty"`
+	U *string  `json:"u,omitempty"`
+}
+
+// Body returns the document to index for version v (deterministic field order).
+func Body(v int) interface{} {
+	b := body{}
+	m := Versions[v]
+	if s, ok := m["t"].(string); ok {
+		b.T = &s
+	}
+	if f, ok := m["n"].(float64); ok {
+		b.N = &f
+	}
+	if s, ok := m["u"].(string); ok {
+		b.U = &s
+	}
+	return b
+}
+
 // Op is one operation inside a batch.
 type Op struct {
 	Kind string // I D S X  (index, delete, set-internal, delete-internal)
@@ -107,7 +132,7 @@ func Fill(bb *bleve.Batch, b Batch) error {
 	for _, o := range b {
 		switch o.Kind {
 		case "I":
-			if err := bb.Index(o.ID, Versions[o.V]); err != nil {
+			if err := bb.Index(o.ID, Body(o.V)); err != nil {
 				return err
 			}
 		case "D":
